@@ -81,3 +81,38 @@ Fixpoint rs_projection (dimn : nat) (z : Z) : list Z :=
       let xd := m - (Z.max 0 (z - m_d - m_d1)) / aux in
       rs_projection k (z - m_d - (m - xd) * aux) ++ [xd]
   end.
+
+(* ---- Pairing.pairing / Pairing.projection: the generic nesting used for dim > 2 by every pairing that
+   does not override them (Szudzik, Pepis-Kalmar, Hyperbolic; Cantor.projection raises for dim <> 2).
+     pairing(x)        = pairing2d(pairing(x[:-1]), x[-1]) if len(x) > 2 else pairing2d(x[0], x[1])
+                       = the left fold  p2 (... p2 (p2 x1 x2) x3 ...) xd        (nest_pairing_snoc)
+     projection(z,dim) = projection2d(t[0]) + t[1:] with t = projection(z, dim-1) if dim > 2 else projection2d(z)
+   (len(x) < 2 raises a TypeError in pairing2d(x[0], x[1]): modelled as 0) *)
+Definition nest_pairing (p2 : Z -> Z -> Z) (xs : list Z) : Z :=
+  match xs with x1 :: x2 :: r => fold_left p2 r (p2 x1 x2) | _ => 0 end.
+Fixpoint nest_projection (pr2 : Z -> Z * Z) (dimn : nat) (z : Z) : list Z :=
+  match dimn with
+  | S (S (S _) as k) =>
+      match nest_projection pr2 k z with
+      | p :: q => fst (pr2 p) :: snd (pr2 p) :: q
+      | [] => []
+      end
+  | _ => [fst (pr2 z); snd (pr2 z)]
+  end.
+
+(* ---- PairingToZd for a general dimension (tuples as lists) around a pairing of N^d:
+     pairing(x) = n_pairing.pairing(tuple(map(mapping_to_z, x)));  pair(x) = pairing(x) - omit
+     projection(n) = tuple(map(projection_to_z, n_pairing.projection(n, dimension)));  project(x) = projection(x + omit) *)
+Definition zdn_pair (npair : list Z -> Z) (omit : Z) (xs : list Z) : Z :=
+  npair (map mapping_to_z xs) - omit.
+Definition zdn_project (nproj : nat -> Z -> list Z) (dimn : nat) (omit : Z) (n : Z) : list Z :=
+  map projection_to_z (nproj dimn (n + omit)).
+
+(* ---- numerical/numbers.py a_n (with the integer square root):
+     sqrt_x = isqrt(n);  2 * sum(n // k for k in range(1, sqrt_x + 1)) - sqrt_x**2 *)
+Fixpoint zsum_from (f : Z -> Z) (a : Z) (len : nat) : Z :=   (* f a + f (a+1) + ... + f (a+len-1) *)
+  match len with O => 0 | S l => f a + zsum_from f (a + 1) l end.
+Definition a_n (n : Z) : Z :=
+  let s := Z.sqrt n in 2 * zsum_from (fun k => n / k) 1 (Z.to_nat s) - s ^ 2.
+(* the divisor summatory function  D(n) = sum_{k=1..n} floor(n/k)  (OEIS A006218) *)
+Definition divisor_summatory (n : Z) : Z := zsum_from (fun k => n / k) 1 (Z.to_nat n).
